@@ -13,7 +13,7 @@ import itertools
 import logging
 import random
 
-from vlib import e2e, engine, outparse, scene, suites, tcpcap, tlssynth
+from vlib import corpus, e2e, engine, outparse, scene, suites, tcpcap, tlssynth
 
 FIRST_KEY = "first-segment-displaced"
 
@@ -215,7 +215,7 @@ def eval_e2e(case, rng, thorough):
             ep.cisn = isn
         else:
             ep.sisn = isn
-    segkind = rng.choice(["records", "records", "random", "mss", "byte2"])
+    segkind = rng.choice(["records", "records", "random", "mss", "byte2", "tail1"])
     segs = tcpcap.segments(conn.events, ep, tcpcap.make_cutter(rng, segkind, conn.events))
     base = list(segs)
     ndup = rng.choice([0, 0, 1, 2, 5])
@@ -308,9 +308,55 @@ def eval_long(case, rng, thorough):
     return dict(out, v="held")
 
 
+def eval_real(case, rng, thorough):
+    """a real OpenSSL capture of the repository: its TCP payload streams are re-cut, duplicated and reordered without any knowledge of their content;
+    every delivery must export the streams the original capture exports"""
+    name, path, keys, _ = next(c for c in corpus.tls_captures() if c[0] == case["real"])
+    items = corpus.load(path)
+    convs = corpus.tcp_conversations(items)
+    out = {"cls": ["real", name], "tags": ["e2e:real"], "sample": {"case": case["id"], "capture": name, "conversations": len(convs)}}
+    if not convs:
+        return dict(out, v="inconclusive", msg="no cleanly reassemblable TLS conversation in the capture", nontrivial=False)
+    orig, files, argv = e2e.run_capture(open(path, "rb").read(), keys)
+    fail = e2e.run_failed(orig)
+    if fail:
+        return dict(out, v="inconclusive" if fail.startswith("INCONCLUSIVE") else "violated", msg="original capture: " + fail, files=files)
+    ref = {k: v for k, v in outparse.Analysis(orig.out).tcp.items() if v}
+    bad, units, classes = [], 0, set()
+    (key, (ep, events)), = list(convs.items())[:1]
+    for rep in range(24 if thorough else 8):
+        segkind = rng.choice(["records", "random", "mss", "byte2", "whole", "tail1"])
+        ep2 = tcpcap.Endpoints(ep.cmac, ep.smac, ep.cip, ep.sip, ep.cport, ep.sport, rng.choice([1000, (1 << 32) - rng.randrange(1, 3000), rng.randrange(1 << 32)]), rng.randrange(1 << 32),
+                               tcpopts=rng.random() < 0.5)
+        segs = tcpcap.segments(events, ep2, tcpcap.make_cutter(rng, segkind, events))
+        ndup, ndis = rng.choice([0, 1, 3]), rng.choice([0, 1, 2])
+        segs = tcpcap.displace(tcpcap.add_duplicates(segs, rng, ndup), rng, ndis, maxdist=rng.choice([1, 2, 3]))
+        its = [scene.Item(tcpcap.frame(ep2, s_), dir=s_.dir, seg=s_, tag="tcp") for s_ in segs]
+        scene.stamp(its, rng)
+        units += 1
+        r, f2, a2 = e2e.run_capture(scene.capture(its), keys)
+        fail = e2e.run_failed(r)
+        if fail:
+            if not fail.startswith("INCONCLUSIVE"):
+                bad.append((f"{segkind} cuts, {ndup} duplicates, {ndis} displaced: {fail[:400]}", f2))
+            continue
+        got = {k: v for k, v in outparse.Analysis(r.out).tcp.items() if v}
+        classes.add((segkind, min(ndup, 1), min(ndis, 1), "same" if got == ref else "differs"))
+        if got != ref:
+            bad.append((f"{segkind} cuts, {ndup} duplicates, {ndis} displaced: exported streams {sorted((k[1], k[3], len(v)) for k, v in got.items())} differ from those of the "
+                        f"original capture {sorted((k[1], k[3], len(v)) for k, v in ref.items())}", dict(f2, **{"out.pcapng": r.out, "out_original.pcapng": orig.out})))
+    out.update(units=units, classes=[["real", name] + list(c) for c in sorted(classes)], nontrivial=bool(ref) and units > 0, mon={"real_capture_deliveries": units})
+    if bad:
+        return dict(out, v="violated", msg=f"real capture {name}: {len(bad)} of {units} deliveries; first: {bad[0][0]}", files=bad[0][1])
+    return dict(out, v="held")
+
+
 def build(tier, seed):
     thorough = tier == "thorough"
     cases = []
+    real = corpus.tls_captures()
+    for name, path, _, _ in (real if thorough else real[1::5]):
+        cases.append({"id": f"real-{name}", "kind": "real", "real": name})
     for i in range(120 if thorough else 16):
         cases.append({"id": f"long-{i}", "kind": "long"})      # first: they are the slowest cases
     for d in "cs":
@@ -331,6 +377,8 @@ def build(tier, seed):
             return eval_e2e(case, rng, thorough)
         if case["kind"] == "long":
             return eval_long(case, rng, thorough)
+        if case["kind"] == "real":
+            return eval_real(case, rng, thorough)
         return eval_direct(case, rng, thorough)
 
     return dict(cases=cases, evalfn=evalfn, level="exploration", min_nontrivial=100,
